@@ -4,7 +4,7 @@ from .runner import Harness, Module
 from . import shapes as S
 
 CODES = ['p', 'w', 'i', 'm']
-FIELD = {'p': ('u8', None), 'w': ('u16', None), 'i': ('u8', {'ignore': True}), 'm': ('u8', {'method': 'hash_m'})}
+FIELD = {'f': ('u8', {'ignore': False}), 'p': ('u8', None), 'w': ('u16', None), 'i': ('u8', {'ignore': True}), 'm': ('u8', {'method': 'hash_m'})}
 FUNCTIONS = ['<T as ::core::hash::Hash>::hash::<Rec> (educe expansion, struct and enum), observed through a recording Hasher']
 
 
@@ -130,6 +130,11 @@ def gen(tier, seed):
         model.TYPE_WRAP = None
     for k, sh in enumerate([('struct', [('named', ['p', 'x', 'w'])]), ('struct', [('tuple', ['x', 'p'])]), ('enum', [('tuple', ['p', 'x']), ('named', ['x', 'm', 'p']), ('unit', [])])]):
         mods.append(emit(f'm{n:04d}', f'{S.shape_id(sh)}/peq={k % 2}/ignore+method on one field', sh, k % 2 == 1))
+        n += 1
+    from .model import Spelling
+    for j in range(3):
+        sh = [('struct', [('tuple', ['f', 'i', 'w'])]), ('enum', [('named', ['f', 'm']), ('tuple', ['i', 'f']), ('unit', [])]), ('struct', [('named', ['m', 'f'])])][j]
+        mods.append(emit(f'm{n:04d}', f'{S.shape_id(sh)}/peq=0/explicitly not ignored #{j}', sh, False, sp=Spelling(force={'notignoreform': j})))
         n += 1
     from .runner import empty_enum_module
     mods.append(empty_enum_module(f'm{n:04d}', 'Hash', 'core::hash::Hash', FUNCTIONS))
